@@ -62,7 +62,12 @@ def describe(prop):
                      "with dsim.reader's independent reading of the text, "
                      "then two short model-guided simulated episodes run on "
                      "nasim.load(path) with the C01/C02/C05/C06 relations "
-                     "evaluated against the file-derived configuration.  "
+                     "evaluated against the file-derived configuration; "
+                     "finally single-byte doc_flip faults (digit -> digit, "
+                     "letter -> letter) are applied and, where the damaged "
+                     "document is still valid for the narrow detector and "
+                     "the loader accepts it, the loaded scenario must equal "
+                     "the independent reading of the *damaged* text.  "
                      "distinct = digest of the document text; every case is "
                      "non-trivial."),
             "probes": ["accepted", "exploit_prob_1", "empty_escalations",
@@ -87,7 +92,11 @@ def describe(prop):
                  "statement, at a random eligible site) is applied one at a "
                  "time, plus torn writes (truncation at a random byte "
                  "offset, scored only when the remaining text is "
-                 "unparsable, not a mapping, or lacks a required section); "
+                 "unparsable, not a mapping, or lacks a required section) "
+                 "and single-byte flips (digit -> digit, letter -> letter; "
+                 "scored only when dsim.docsim.broken_rule, a narrow "
+                 "detector of exactly the catalogue rules, finds a broken "
+                 "rule in the damaged document); "
                  "nasim.load_scenario must raise.  The catalogue x base "
                  "product is enumerated, sites are sampled.  distinct = "
                  "digest of the base document; every case is non-trivial."
